@@ -3,6 +3,10 @@
 // function forms LJ126 / LJG / CBSPL (value, first and second parameter derivatives, numerical parameter derivatives,
 // SavePotTab).
 #include "common.h"
+#include <memory>
+#include <votca/tools/akimaspline.h>
+#include <votca/tools/cubicspline.h>
+#include <votca/tools/linspline.h>
 #include <fstream>
 #include <sstream>
 #include <unistd.h>
@@ -240,6 +244,34 @@ static void pot_case(Rng &r) {
   printf("%s\n", o.str().c_str());
 }
 
+// ---- "for every spline type the reported derivative is the derivative of the reported spline value": Calculate / CalculateDerivative
+// of the three interpolating splines at points inside every interval (the last one and the end points included), the value sampled
+// on a five-point stencil so that the driver can differentiate it numerically
+static void spline_case(Rng &r) {
+  int type = (int)r.below(3);          // 0 linear, 1 cubic, 2 akima
+  int n = 4 + (int)r.below(12);
+  Eigen::VectorXd x(n), y(n);
+  double h0 = 0.05 + r.unit() * 0.4;
+  x(0) = (r.unit() - 0.5) * 4;
+  for (int i = 1; i < n; i++) x(i) = x(i - 1) + h0 * (r.coin(2, 3) ? 1.0 : 0.4 + r.unit() * 2);
+  int shape = (int)r.below(3);
+  for (int i = 0; i < n; i++) y(i) = shape == 0 ? (r.unit() - 0.5) * 6 : shape == 1 ? std::sin(2 * x(i)) : 4 * (std::pow(0.3 / (std::abs(x(i)) + 0.3), 12) - std::pow(0.3 / (std::abs(x(i)) + 0.3), 6));
+  std::unique_ptr<tools::Spline> sp;
+  if (type == 0) sp.reset(new tools::LinSpline()); else if (type == 1) sp.reset(new tools::CubicSpline()); else sp.reset(new tools::AkimaSpline());
+  bool periodic = type != 0 && r.coin(1, 4);
+  if (periodic) sp->setBC(tools::Spline::splinePeriodic);
+  try { sp->Interpolate(x, y); } catch (...) { printf("C07 splder-rejected\n"); return; }
+  // evaluation point: strictly inside an interval, the last interval one time in three
+  int iv = r.coin(1, 3) ? n - 2 : (int)r.below(n - 1);
+  double w = x(iv + 1) - x(iv);
+  double rr = x(iv) + w * (0.15 + 0.7 * r.unit());
+  double h = w * 0.02;
+  double scale = y.cwiseAbs().maxCoeff() + 1.0;
+  printf("C07 splder %d %d %d %s %s %s %s %s %s %s %s\n", type, periodic ? 1 : 0, iv == n - 2 ? 1 : 0, dexact(rr).c_str(), dexact(h).c_str(), dexact(scale / w).c_str(),
+         dexact(sp->CalculateDerivative(rr)).c_str(), dexact(sp->Calculate(rr - 2 * h)).c_str(), dexact(sp->Calculate(rr - h)).c_str(),
+         dexact(sp->Calculate(rr + h)).c_str(), dexact(sp->Calculate(rr + 2 * h)).c_str());
+}
+
 int main(int argc, char **argv) {
   std::string mode = argc > 1 ? argv[1] : "rand";
   long N = argc > 2 ? atol(argv[2]) : 100;
@@ -266,7 +298,7 @@ int main(int argc, char **argv) {
   }
   for (long i = 0; i < N; i++) {
     int k = (int)r.below(10);
-    if (k < 4) ia_case(r, false); else if (k < 7) ia_case(r, true); else pot_case(r);
+    if (k < 4) ia_case(r, false); else if (k < 6) ia_case(r, true); else if (k < 7) spline_case(r); else pot_case(r);
   }
   return 0;
 }
